@@ -353,7 +353,8 @@ def run_job(job):
         ops = seq_ops(dict(job, shard=[0, 1]))
         table = REAL_SCEN if job["name"].startswith("concurrent-real") else CONCUR_SCEN
         scens = [{"threads": [ops[i] for i in sc[0]], "warm": [ops[i] for i in sc[1]], "post": [ops[i] for i in (sc[2] if len(sc) > 2 else ())]} for sc in table]
-        return run_concur_job(job, scens, run_case, PROPERTY, CONCUR_FILES, alphabet=ops)
+        # (follow-up calls: not the private-key PEM operations - a 70 ms scalar multiplication each - after every schedule)
+        return run_concur_job(job, scens, run_case, PROPERTY, CONCUR_FILES, alphabet=[o for o in ops if not (o[0] == "pem" and o[1].get("what") == "priv")])
     if job["part"] == "longhist":
         from vf.runner import run_long_job
         return run_long_job(job, long_ops(job), run_case)
